@@ -10,6 +10,8 @@ func init() {
 	Props["C05"] = &PropSpec{Level: "other", Rules: []string{"R10"}, Explanation: "tbd"}
 	Props["C16"] = &PropSpec{Level: "other", Rules: []string{"R39", "R40"}, Explanation: "tbd"}
 	Props["C14"] = &PropSpec{Level: "other", Rules: []string{"R37", "R38"}, Explanation: "tbd"}
+	Props["C17"] = &PropSpec{Level: "proof", Rules: []string{"R41"}, Explanation: "tbd"}
+	Props["C15"] = &PropSpec{Level: "other", Rules: []string{"R42"}, Explanation: "tbd"}
 	Props["C13"] = &PropSpec{Level: "other", Rules: []string{"R34", "R35", "R36"}, Explanation: "tbd"}
 	Props["C12"] = &PropSpec{Level: "other", Rules: []string{"R31", "R32", "R33"}, Explanation: "tbd"}
 	Props["C11"] = &PropSpec{Level: "other", Rules: []string{"R23", "R24", "R25", "R26", "R27"}, Explanation: "tbd"}
